@@ -180,7 +180,9 @@ func heapDumpChan(ch *girc.Channel) string {
 	for _, m := range ch.Modes.VerifModeList() {
 		ml = append(ml, Hex(string([]byte{m.Name}))+"="+Hex(m.Args))
 	}
-	return Hex(ch.Name) + ":" + Hex(ch.Topic) + ":" + HexList(ch.UserList) + ":" + Hex(ch.Modes.String()) + ":" + strings.Join(ml, ",")
+	// (Modes.String() is not part of the dump: it renders a mode byte >= 0x80 as the UTF-8 of
+	// that code point, a rendering matter of C04; the stored names and arguments are compared)
+	return Hex(ch.Name) + ":" + Hex(ch.Topic) + ":" + HexList(ch.UserList) + ":" + strings.Join(ml, ",")
 }
 
 func heapRequery(c *girc.Client) string {
